@@ -20,6 +20,7 @@ from concurrent.futures import ThreadPoolExecutor
 import lib
 import refstie
 import cachetie
+import heaptie
 from lib import coq_list
 
 import c12_acceptors
@@ -28,6 +29,7 @@ import c12_families
 COQ_TARGETS = ["theories/Proofs/CacheLemmas.vo", "theories/Proofs/CacheMemo.vo", "theories/Model/CacheToy.vo"]
 COQ_TARGETS = COQ_TARGETS + [t for t in refstie.COQ_TARGETS if t not in COQ_TARGETS]
 COQ_TARGETS = COQ_TARGETS + [t for t in cachetie.COQ_TARGETS if t not in COQ_TARGETS]
+COQ_TARGETS = COQ_TARGETS + [t for t in heaptie.COQ_TARGETS if t not in COQ_TARGETS]
 WORKER = os.path.join(lib.VERIF, "harness", "c12_worker.py")
 THEOREMS = ["C12_memo_transparent", "C12_memo_transparent_immutable", "C12_history_independent",
             "C12_inputs_untouched",
@@ -738,6 +740,8 @@ def correspond(run: lib.Run):
     lib.run_tie(run, refstie)
     # the cached system refines the STATELESS core model on every history (Props/C12Bridge.v); histories vs Core by vm_compute
     lib.run_tie(run, cachetie)
+    # 'returned mutable containers are never shared ...; inputs are never mutated': C12H_results_separate / _inputs_never_mutated
+    lib.run_tie(run, heaptie, props=False, n_groups=run.budget(10, 60), seed_offset=12)
 
 
 def check_catalogue(run, pool):
